@@ -410,6 +410,13 @@ def build_chain(eng, D, kinds, fault, link, tk=0):
             return sz
         if fault == 'unsigned':
             return DigestSha256Signer()
+        if fault == 'locator-with-digest':
+            # the key is named by the full name of a certificate packet that nobody can retrieve: the proper
+            # certificate name followed by an implicit digest that is not the digest of any packet
+            lvl = D - 1 - elem_j
+            s2, _ = _signer(kinds[lvl], 'L%d' % lvl, list(proper.key_locator_name) +
+                            [Component.from_bytes(bytes([0x5a] * 32), Component.TYPE_IMPLICIT_SHA256)])
+            return s2
         return proper
     names = {0: n0}
     for i in range(1, D):
@@ -871,7 +878,8 @@ def cases(tier, seed):
         for v in ('valid', 'corrupt', 'wrong-name', 'signed-by-other-key'):
             cs.append(('ctor', {'anchor_kind': kind, 'variant': v}))
     deep_faults = ['none', 'sig-corrupt', 'issuer-not-allowed', 'wrong-name-shape', 'key-substituted', 'cert-nack',
-                   'cert-timeout', 'unsigned', 'self-loop', 'name-outside-schema', 'timeout-then-forged', 'nack-then-forged']
+                   'cert-timeout', 'unsigned', 'self-loop', 'name-outside-schema', 'timeout-then-forged', 'nack-then-forged',
+                   'locator-with-digest']
     kind_sets = {1: [['rsa'], ['ecdsa'], ['hmac']], 2: [['rsa', 'ecdsa'], ['ecdsa', 'hmac']],
                  3: [['ecdsa', 'rsa', 'ecdsa'], ['hmac', 'ecdsa', 'rsa']], 4: [['rsa', 'ecdsa', 'hmac', 'ecdsa']]}
     for D in (1, 2, 3) if tier == 'quick' else (1, 2, 3, 4):
